@@ -2560,18 +2560,25 @@ func (pid *PID) freeChildren(ctx context.Context) error {
 				logger.Debugf("parent %s disowning descendant %s", pid.Name(), child.Name())
 				pid.UnWatch(child)
 				tree.removeDescendant(node.id, child.ID())
-				if child.IsSuspended() || child.IsRunning() {
-					if err := child.Shutdown(ctx); err != nil {
-						// only return error when the actor is not dead
-						// because if the actor is dead it means that
-						// it has been stopped or passivated already
-						// this can happen due to timing issue
-						if !errors.Is(err, gerrors.ErrDead) {
-							return fmt.Errorf("Parent %s failed to disown descendant %s: %w", pid.Name(), child.Name(), err)
-						}
-					}
-					logger.Debugf("parent %s successfully disown descendant %s", pid.Name(), child.Name())
+				// Decide from one load of the state word, and only skip a child that
+				// is already offline. A child whose stop another goroutine has in
+				// progress (stopping flag set) must be waited for - Shutdown blocks
+				// until that stop is over - or the parent's PostStop runs before the
+				// child's; and testing IsSuspended() || IsRunning() with two loads
+				// missed a child that became suspended in between.
+				if !child.isStateSet(runningState) {
+					return nil
 				}
+				if err := child.Shutdown(ctx); err != nil {
+					// only return error when the actor is not dead
+					// because if the actor is dead it means that
+					// it has been stopped or passivated already
+					// this can happen due to timing issue
+					if !errors.Is(err, gerrors.ErrDead) {
+						return fmt.Errorf("Parent %s failed to disown descendant %s: %w", pid.Name(), child.Name(), err)
+					}
+				}
+				logger.Debugf("parent %s successfully disown descendant %s", pid.Name(), child.Name())
 				return nil
 			})
 		}
